@@ -2,7 +2,7 @@
    Statements only.  [veval] is the executable model of the code (what each operation hands to the
    constructor + the `valid` setter's normalisation, with rejections); [sem] is the plain reading of
    the property (operand masks, cell-wise AND, gathers).  Masks have arbitrary shapes and sizes. *)
-From DF Require Import Prelude NDArray Valid C08_arrays C08_valid C08_maps C08_reals.
+From DF Require Import Prelude NDArray Valid C08_arrays C08_valid C08_maps C08_reals ListLemmas CheckSound Check_C08 C08_sound.
 From Coq Require Import Reals Qreals.
 Open Scope nat_scope.
 
@@ -241,3 +241,218 @@ Example C08_norm_nonvacuous :
   (0 <= norm_atol)%Q /\ norm_valid [(3 # 1)%Q; (4 # 1)%Q] = true /\ norm_valid [0%Q; 0%Q] = false.
 Proof. split; [unfold Qle; simpl; lia | split; reflexivity]. Qed.
 Print Assumptions C08_norm_nonvacuous.
+
+(* ================================================================== correspondence checker: soundness.
+   An accepted case certifies that the OBSERVED output is the model's value on the recorded inputs. *)
+Theorem C08_check_expr_sound : forall env e sh cells s t,
+  check_C08 (CExpr env e (Some (sh, cells)) s t) = true ->
+  Forall wf (mk_env env) /\
+  veval (mk_env env) e = OK (mkM sh cells) /\
+  s = shares_want env e /\ t = shares_want env e.
+Proof. exact check_expr_ok_sound. Qed.
+Print Assumptions C08_check_expr_sound.
+Theorem C08_check_expr_rejection_sound : forall env e s t,
+  check_C08 (CExpr env e None s t) = true ->
+  Forall wf (mk_env env) /\ exists er, veval (mk_env env) e = Err er.
+Proof. exact check_expr_rej_sound. Qed.
+Print Assumptions C08_check_expr_rejection_sound.
+Theorem C08_check_mapdata_sound : forall sh m mask obs_sh obs_ids obs_mask,
+  check_C08 (CMapData sh m mask obs_sh obs_ids obs_mask) = true ->
+  wf (mkM sh mask) /\ map_ok m sh = true /\
+  obs_sh = map_shape m sh /\
+  obs_ids = to_list (map_shape m sh) (gather m sh None (fun j => Some (ravel sh j))) /\
+  map_sem m (mkM sh mask) = OK (mkM obs_sh obs_mask).
+Proof. exact check_mapdata_sound. Qed.
+Print Assumptions C08_check_mapdata_sound.
+Theorem C08_check_setter_sound : forall n v sh cells ib vs own,
+  check_C08 (CSetter n v (Some (sh, cells)) ib vs own) = true ->
+  set_valid n 1 [] v = OK (mkM sh cells) /\ ib = true /\ vs = true /\ own = true.
+Proof. exact check_setter_ok_sound. Qed.
+Print Assumptions C08_check_setter_sound.
+Theorem C08_check_setter_rejection_sound : forall n v ib vs own,
+  check_C08 (CSetter n v None ib vs own) = true ->
+  (exists er, set_valid n 1 [] v = Err er) /\ vs = true.
+Proof. exact check_setter_rej_sound. Qed.
+Print Assumptions C08_check_setter_rejection_sound.
+Theorem C08_check_norm_exact_sound : forall n nvdim vals obs,
+  check_C08 (CNorm true n nvdim vals obs) = true ->
+  length vals = nprod n * nvdim /\ length obs = nprod n /\
+  obs = map (norm_valid_at norm_atol_f64) (chunks nvdim (nprod n) vals).
+Proof. exact check_norm_exact_sound. Qed.
+Print Assumptions C08_check_norm_exact_sound.
+(* tolerance regime: outside the relative band 1e-9 around the threshold the observed cell is decided *)
+Theorem C08_check_norm_band_sound : forall n nvdim vals obs,
+  check_C08 (CNorm false n nvdim vals obs) = true ->
+  length vals = nprod n * nvdim /\ length obs = nprod n /\
+  forall k, k < nprod n ->
+    let v := nth k (chunks nvdim (nprod n) vals) [] in
+    ((band_hi * band_hi < sumsq v)%Q -> nth k obs true = true) /\
+    ((sumsq v < band_lo * band_lo)%Q -> nth k obs true = false).
+Proof. exact check_norm_band_sound. Qed.
+Print Assumptions C08_check_norm_band_sound.
+Theorem C08_check_vtk_sound : forall sh mask obs_ints,
+  check_C08 (CVtkEnc sh mask obs_ints) = true ->
+  wf (mkM sh mask) /\ obs_ints = vtk_encode (mkM sh mask).
+Proof. exact check_vtk_sound. Qed.
+Print Assumptions C08_check_vtk_sound.
+Theorem C08_check_bingeo_sound : forall env nd b e1 e2 sh cells,
+  check_C08 (CBinGeo env nd b e1 e2 (Some (sh, cells))) = true ->
+  Forall wf (mk_env env) /\
+  veval_bin_geo (mk_env env) nd b e1 e2 = Some (OK (mkM sh cells)).
+Proof. exact check_bingeo_ok_sound. Qed.
+Print Assumptions C08_check_bingeo_sound.
+Theorem C08_check_bingeo_rejection_sound : forall env nd b e1 e2,
+  check_C08 (CBinGeo env nd b e1 e2 None) = true ->
+  Forall wf (mk_env env) /\
+  exists er, veval_bin_geo (mk_env env) nd b e1 e2 = Some (Err er).
+Proof. exact check_bingeo_rej_sound. Qed.
+Print Assumptions C08_check_bingeo_rejection_sound.
+Theorem C08_check_both_sound : forall c1 c2,
+  check_C08 (CBoth c1 c2) = true -> check_C08 c1 = true /\ check_C08 c2 = true.
+Proof. exact check_both_sound. Qed.
+Print Assumptions C08_check_both_sound.
+(* a whole shard: no failing index means every case was accepted *)
+Theorem C08_shard_verdict : forall cases k,
+  failing k (map check_C08 cases) = [] -> forall c, In c cases -> check_C08 c = true.
+Proof. exact (failing_nil_all check_C08). Qed.
+Print Assumptions C08_shard_verdict.
+
+(* --- transfer: the property's conclusions about the OBSERVED outputs *)
+(* the observed mask of an accepted operation chain is the plain reading of the property; the
+   well-formedness of the operands is established by the checker itself *)
+Theorem C08_accepted_expr_is_sem : forall env e sh cells s t,
+  check_C08 (CExpr env e (Some (sh, cells)) s t) = true ->
+  mkM sh cells = sem (mk_env env) e /\
+  length cells = nprod sh /\
+  eshape (map msh (mk_env env)) e = Some sh.
+Proof. exact accepted_expr_is_sem. Qed.
+Print Assumptions C08_accepted_expr_is_sem.
+(* operands on one mesh, unary and binary operations: every observed cell = AND over the field leaves *)
+Theorem C08_accepted_expr_and_over_leaves : forall env e sh cells s t sh0 i,
+  check_C08 (CExpr env e (Some (sh, cells)) s t) = true ->
+  (forall p, In p env -> fst p = sh0) -> map_free e = true ->
+  (forall k, In k (leaves e) -> k < length env) ->
+  mget (mkM sh cells) i =
+  forallb (fun k => mget (nth k (mk_env env) (mkM [] [])) i) (leaves e).
+Proof. exact accepted_expr_and_over_leaves. Qed.
+Print Assumptions C08_accepted_expr_and_over_leaves.
+(* observed np.shares_memory / in-place write probe: True only for the operand itself behind unary pluses *)
+Theorem C08_accepted_expr_own : forall env e sh cells s t k,
+  check_C08 (CExpr env e (Some (sh, cells)) s t) = true -> k < length env ->
+  (nth k s false = true \/ nth k t false = true) -> strip_pos e = Leaf k.
+Proof. exact accepted_expr_own. Qed.
+Print Assumptions C08_accepted_expr_own.
+Theorem C08_accepted_expr_fresh : forall env e sh cells s t,
+  check_C08 (CExpr env e (Some (sh, cells)) s t) = true ->
+  is_leaf (strip_pos e) = false ->
+  s = repeat false (length env) /\ t = repeat false (length env).
+Proof. exact accepted_expr_fresh. Qed.
+Print Assumptions C08_accepted_expr_fresh.
+(* observed mask of a mapping operation: the operand's mask at the cell the index map sends it to,
+   which lies inside the operand's mesh *)
+Theorem C08_accepted_mapped : forall sh m mask obs_sh obs_ids obs_mask i,
+  check_C08 (CMapData sh m mask obs_sh obs_ids obs_mask) = true ->
+  inb obs_sh i = true ->
+  nth (ravel obs_sh i) obs_mask true =
+  match map_idx m sh i with
+  | Some j => nth (ravel sh j) mask true
+  | None => map_fill m
+  end /\
+  forall j, map_idx m sh i = Some j -> inb sh j = true.
+Proof. exact accepted_mapped. Qed.
+Print Assumptions C08_accepted_mapped.
+(* validity follows the DATA: where the observed value of result cell i was taken from operand cell
+   number c, the observed validity is the operand's validity at c; padding constants get the fill *)
+Theorem C08_accepted_mask_follows_data : forall sh m mask obs_sh obs_ids obs_mask i,
+  check_C08 (CMapData sh m mask obs_sh obs_ids obs_mask) = true ->
+  inb obs_sh i = true ->
+  nth (ravel obs_sh i) obs_mask true =
+  match nth (ravel obs_sh i) obs_ids None with
+  | Some c => nth c mask true
+  | None => map_fill m
+  end.
+Proof. exact accepted_mask_follows_data. Qed.
+Print Assumptions C08_accepted_mask_follows_data.
+(* decoding the OBSERVED VTK integers gives back the mask that was written *)
+Theorem C08_accepted_vtk_roundtrip : forall sh mask obs_ints,
+  check_C08 (CVtkEnc sh mask obs_ints) = true ->
+  vtk_decode sh obs_ints = OK (mkM sh mask).
+Proof. exact accepted_vtk_roundtrip. Qed.
+Print Assumptions C08_accepted_vtk_roundtrip.
+Theorem C08_accepted_setter_shape : forall n v sh cells ib vs own,
+  check_C08 (CSetter n v (Some (sh, cells)) ib vs own) = true ->
+  sh = n /\ length cells = nprod n /\ ib = true /\ vs = true /\ own = true.
+Proof. exact accepted_setter_shape. Qed.
+Print Assumptions C08_accepted_setter_shape.
+Theorem C08_accepted_setter_bool_array : forall n cells sh obs ib vs own,
+  check_C08 (CSetter n (VArray n (map SB cells)) (Some (sh, obs)) ib vs own) = true ->
+  length cells = nprod n -> sh = n /\ obs = cells.
+Proof. exact accepted_setter_bool_array. Qed.
+Print Assumptions C08_accepted_setter_bool_array.
+(* valid="norm", exact regime: an observed cell is valid iff the Euclidean length of its value
+   exceeds the (binary64) threshold *)
+Theorem C08_accepted_norm_exact : forall n nvdim vals obs k,
+  check_C08 (CNorm true n nvdim vals obs) = true -> k < nprod n ->
+  (nth k obs true = true <->
+   (Q2R norm_atol_f64 < sqrt (Rsumsq (map Q2R (nth k (chunks nvdim (nprod n) vals) []))))%R).
+Proof. exact accepted_norm_exact. Qed.
+Print Assumptions C08_accepted_norm_exact.
+(* tolerance regime: outside the band the observed cell is the model setter's cell *)
+Theorem C08_accepted_norm_band : forall n nvdim vals obs k m,
+  check_C08 (CNorm false n nvdim vals obs) = true -> k < nprod n ->
+  set_valid n nvdim vals VNorm = OK m ->
+  let v := nth k (chunks nvdim (nprod n) vals) [] in
+  ((band_hi * band_hi < sumsq v)%Q \/ (sumsq v < band_lo * band_lo)%Q) ->
+  nth k obs true = nth k (mcells m) true.
+Proof. exact accepted_norm_band. Qed.
+Print Assumptions C08_accepted_norm_band.
+(* binary operation between derived fields of one mesh: observed result = AND of both sides, at one position *)
+Theorem C08_accepted_bingeo : forall env nd b e1 e2 sh cells,
+  check_C08 (CBinGeo env nd b e1 e2 (Some (sh, cells))) = true ->
+  mkM sh cells = and_cells (sem (mk_env env) e1) (sem (mk_env env) e2) /\
+  msh (sem (mk_env env) e1) = msh (sem (mk_env env) e2) /\
+  exists o, eorigin nd e1 = Some o /\ eorigin nd e2 = Some o.
+Proof. exact accepted_bingeo. Qed.
+Print Assumptions C08_accepted_bingeo.
+(* an observed rejection is never spurious: the shapes or the positions differ *)
+Theorem C08_accepted_bingeo_rejection : forall env nd b e1 e2,
+  check_C08 (CBinGeo env nd b e1 e2 None) = true ->
+  exists v1 v2 o1 o2,
+    veval (mk_env env) e1 = OK v1 /\ veval (mk_env env) e2 = OK v2 /\
+    eorigin nd e1 = Some o1 /\ eorigin nd e2 = Some o2 /\
+    (msh v1 <> msh v2 \/ o1 <> o2).
+Proof. exact accepted_bingeo_rejection. Qed.
+Print Assumptions C08_accepted_bingeo_rejection.
+
+(* non-vacuity: concrete accepted cases *)
+Example C08_accepted_expr_instance :
+  check_C08 (CExpr [([3], [true; true; false]); ([3], [false; true; true])]
+                   (Bin BCross (Un UNeg (Leaf 0)) (Pos (Leaf 1)))
+                   (Some ([3], [false; true; false])) [false; false] [false; false]) = true.
+Proof. exact accepted_expr_instance. Qed.
+Print Assumptions C08_accepted_expr_instance.
+Example C08_accepted_mapdata_instance :
+  check_C08 (CMapData [3] (MPad PConstant 0 1 0 false) [true; false; true]
+                      [4] [None; Some 0; Some 1; Some 2] [false; true; false; true]) = true.
+Proof. exact accepted_mapdata_instance. Qed.
+Print Assumptions C08_accepted_mapdata_instance.
+Example C08_accepted_vtk_instance :
+  check_C08 (CVtkEnc [2; 1; 1] [true; false] [1%Z; 0%Z]) = true.
+Proof. exact accepted_vtk_instance. Qed.
+Print Assumptions C08_accepted_vtk_instance.
+Example C08_accepted_norm_instance :
+  check_C08 (CNorm true [2] 2 [(3 # 1)%Q; (4 # 1)%Q; 0%Q; 0%Q] [true; false]) = true /\
+  check_C08 (CNorm false [2] 2 [(3 # 1)%Q; (4 # 1)%Q; 0%Q; 0%Q] [true; false]) = true.
+Proof. exact accepted_norm_instance. Qed.
+Print Assumptions C08_accepted_norm_instance.
+Example C08_accepted_setter_instance :
+  check_C08 (CSetter [2] (VArray [2] [SB true; SB false]) (Some ([2], [true; false])) true true true) = true.
+Proof. exact accepted_setter_instance. Qed.
+Print Assumptions C08_accepted_setter_instance.
+Example C08_accepted_bingeo_instance :
+  check_C08 (CBinGeo [([2], [true; false]); ([2], [true; true])] 1 BAdd (Leaf 0)
+               (Map (MRange 0 1 2) (Map (MPad PEdge 0 0 1 false) (Leaf 1))) None) = true /\
+  check_C08 (CBinGeo [([2], [true; false]); ([2], [true; true])] 1 BAdd (Leaf 0)
+               (Map (MRange 0 1 2) (Map (MPad PEdge 0 1 0 false) (Leaf 1))) (Some ([2], [true; false]))) = true.
+Proof. exact accepted_bingeo_instance. Qed.
+Print Assumptions C08_accepted_bingeo_instance.
